@@ -135,6 +135,10 @@ def g_map(rng, depth=3, maxlen=40, indef=None, n=None):
     return Item("map", head(5, n, rand_width(rng, n)) + body, n, items)
 
 
+def nested_tags(depth):
+    return Item("tag", b"\xc1" * depth + b"\x01", ("tag", 1))
+
+
 def nested(depth, indef=False):
     """depth nested one-element arrays around uint 1"""
     if indef:
